@@ -99,7 +99,7 @@ def Loc.pendJoin (l : Loc) (e : Epoch) : Loc × Option Nat :=
 /-- is a join notification for `m` newly tracked? (trackNodeJoinEvent's three early returns) -/
 def joinTracked (m : Node) (l : Loc) : Bool := m != self && !l.joinF && !l.joinTs.isSome
 
-/-- is a left notification newly tracked? (after the unconditional joined-filter removal) -/
+/-- is a left notification (for a node other than the local one) newly tracked? -/
 def leftTracked (l : Loc) : Bool := !l.leftF && !l.leftTs.isSome
 
 /-- the global part of a handler call -/
@@ -133,10 +133,11 @@ def stepL (g : Glob) (ts : Nat) (op : Op) (fire : Bool) (n : Node) (l : Loc) : L
       ((l.pendJoin g.joinLatest).1, ⟨none, (l.pendJoin g.joinLatest).2⟩)
     else (l, Ev.none)
   | .left m _ =>
-    -- trackNodeLeftEvent (there is no self check in the code)
+    -- trackNodeLeftEvent: a notification naming the local node is ignored altogether
     if n = m then
       let l0 := { l with joinF := false }
-      if leftTracked l0 then
+      if n = self then (l, Ev.none)
+      else if leftTracked l0 then
         let l1 := { l0 with leftTs := some ts }
         if g.leftLatest ≠ 0 then
           let l2 := { l1 with leftEp := some g.leftLatest }
@@ -176,7 +177,7 @@ def stepL (g : Glob) (ts : Nat) (op : Op) (fire : Bool) (n : Node) (l : Loc) : L
 /-- was the target of a join/left notification newly tracked? -/
 def fireOf (s : St) : Op → Bool
   | .join m => joinTracked m (s.loc m)
-  | .left m _ => leftTracked (s.loc m)
+  | .left m _ => m != self && leftTracked (s.loc m)
   | _ => false
 
 /-- one handler call on the whole state; the events emitted are a function of the node -/
